@@ -33,7 +33,7 @@ fn classify(src: &SrcSpec, _alpha: f32) -> Option<&'static str> {
     None
 }
 
-fn eval(scene: &Scene) -> Result<(u64, u64, u64), Violation> {
+pub fn eval(scene: &Scene) -> Result<(u64, u64, u64), Violation> {
     let case = scene.to_string();
     let (ctm, src, alpha) = src_of(scene).ok_or_else(|| Violation::new("harness/no-fill", case.clone(), "".to_string()))?;
     let (stops, spread) = match &src {
